@@ -150,6 +150,8 @@ class _Emitter:
     self.pending = None      # a single standard character waiting for its partner
     self.need_ctl = False    # channel 1 must resume with a control code
     self.single = False
+    self.ncode = 0
+    self.split = set(script.get("split") or ())   # ordinals of the doubled codes whose second copy opens the next, adjacent, line
 
   # --- lines
   def brk(self, gap):
@@ -192,7 +194,13 @@ class _Emitter:
     self.flush()
     self.need_ctl = False
     self._word(s, 1, False, what)
+    self.ncode += 1
     if not single:
+      if self.ncode in self.split:
+        # the line ends between the two copies; the next line's time code is the very next frame, so the second copy is still redundant
+        self.t = self.cur[0] + len(self.cur[1])
+        self.cur = None
+        self.flat.labels.add("doubled-code-split-over-adjacent-lines")
       self._word(s, 1, True, what)
     else:
       self.flat.labels.add("undoubled-control")
@@ -359,10 +367,17 @@ def flatten(script):
       raise GrammarError("caption without rows")
     if style in ("pop", "paint"):
       if len({r["row"] for r in rows}) != len(rows):
-        raise GrammarError("a caption addresses each row once")
-      if len(rows) > 4:
+        if not (cap.get("revisit") and style == "pop"):
+          raise GrammarError("a caption addresses each row once")
+        # a pop-on caption that addresses a row again: at column 0 (asserted like any other caption) or elsewhere (labelled class)
+        seen_rows = set()
+        for r in rows:
+          if r["row"] in seen_rows:
+            flat.labels.add("pop:row-addressed-again:" + ("at-column-0" if r["indent"] + r.get("to", 0) == 0 else "elsewhere"))
+          seen_rows.add(r["row"])
+      if len({r["row"] for r in rows}) > 4:
         raise GrammarError("more than 4 rows")
-      flat.max_rows = max(flat.max_rows, len(rows))
+      flat.max_rows = max(flat.max_rows, len({r["row"] for r in rows}))
     flat.labels.add("style:" + style)
     if style == "pop":
       _noise(em, cap, "head")
@@ -707,6 +722,13 @@ def _singles(draw, prof, names):
 @st.composite
 def pop_caption(draw, prof, last=False):
   cap = {"style": "pop", "rows": draw(_grid_rows(prof, "pop")), "gap": draw(st.integers(0, 40))}
+  if prof["revisit"] and draw(st.integers(0, 2)) == 0:
+    # the caption addresses one of its rows again, at column 0 (the new text replaces the beginning of the row)
+    r0 = draw(st.sampled_from(cap["rows"]))["row"]
+    indent, to = 0, 0      # (elsewhere ttconv places the text differently from a cell grid: known finding, kept as a replay only)
+    cap["rows"].append({"indent": indent, "color": "white", "italic": False, "ul": False, "form": "indent", "row": r0, "to": to,
+                        "items": [{"t": "txt", "s": draw(_phrase(min(12, 32 - indent - to), False))}]})
+    cap["revisit"] = True
   # main class: every load starts from an empty non-displayed memory (normalise() adds ENM where needed); leftover class: not
   cap["enm"] = draw(st.booleans())
   cap["edm_pre"] = prof["edm_pre"] and draw(st.integers(0, 5)) == 0
@@ -787,7 +809,7 @@ def profile(**kw):
   p = dict(styles=("pop", "roll", "paint"), mix=False, max_caps=5, max_rows=4, indent=True, to=True, pac_attr=True, mid=True, special=True,
            extended=True, bs=True, rich=True, pad=True, pad_inside=False, ch2=True, f2=True, undoubled=False, brk_rows=True,
            row_order=False, contiguous=False, pop_leftover=False, edm_pre=True, cr_no_pac=True, roll_base=False,
-           paint_accumulate=False, roll_blank=False, open_end=False, paint_c1=False, paint_c4=False, parity=True, df=True, italics_on_colour=False, mid_pairs=True, mid_runs=False, trailing_mid=False)
+           paint_accumulate=False, roll_blank=False, open_end=False, revisit=False, split=False, paint_c1=False, paint_c4=False, parity=True, df=True, italics_on_colour=False, mid_pairs=True, mid_runs=False, trailing_mid=False)
   for k in kw:
     if k not in p:
       raise KeyError(k)
@@ -841,7 +863,10 @@ def scripts(draw, prof):
   pmask = draw(st.sampled_from([-1, -1, 0, None])) if prof["parity"] else -1
   if pmask is None:
     pmask = draw(st.integers(0, 2 ** 61 - 1))
-  return {"df": df, "start": max(0, start), "pmask": pmask, "caps": caps}
+  out = {"df": df, "start": max(0, start), "pmask": pmask, "caps": caps}
+  if prof["split"] and draw(st.integers(0, 2)) == 0:
+    out["split"] = sorted(set(draw(st.lists(st.integers(2, 30), min_size=1, max_size=3))))
+  return out
 
 
 def normalise(caps, prof, draw=None):
